@@ -77,13 +77,22 @@ def h_batch(S, B):
     d1 = rig.make_daemon()
     o1 = Counter()
     d1.objectsById["obj"] = o1
-    p1, s1 = rig.make_proxy(d1, "obj", ALL_NAMES)
+    # the proxy has been used before (it knows which members the object exposes) or is fresh (knows nothing yet)
+    knows = S.flag("proxy_knows_the_metadata")
+    p1, s1 = rig.make_proxy(d1, "obj", {"add", "put", "get", "fail_if"} if knows else set())
     batch = client.BatchProxy(p1)
-    for m, k in calls:
-        if m == "get":
-            getattr(batch, m)()
-        else:
-            getattr(batch, m)(k)
+    collect_error = None
+    try:
+        for m, k in calls:
+            if m == "get":
+                getattr(batch, m)()
+            else:
+                getattr(batch, m)(k)
+    except Exception as x:
+        collect_error = type(x).__name__
+    S.check("no-failure-while-the-calls-are-collected", collect_error is None)
+    if collect_error is not None:
+        return
     batch_results = []
     batch_error = None
     submit_error = None
